@@ -239,9 +239,69 @@ def column_code(ck, na, nb):
         ck.add_inconclusive(f"pointer code: {e}")
 
 
+def skipvec_code(ck, na, nb):
+    """whole-column policy rules (skip_vectorization): rows of A unchanged when B is appended (pointers of A stay in
+    A, group ids of A and B disjoint), and the result depends on group ids only through the partition they induce
+    (every injective relabelling, 0 included)"""
+    from gsv.checks import c01
+    n = na + nb
+    labs = c11.LABELS[n][1] if n in c11.LABELS else list(range(n))
+    for name, f in sorted(gt.all_internal_functions().items()):
+        if not gt.is_skipvec(f):
+            continue
+        label = f"skipvec {name}"
+        try:
+            kw, pre = c01.skipvec_args(f, n)
+            ids = [a for a, v in kw.items() if a.endswith("_id") and a != "p_id" and isinstance(v, SymArray)]
+            ptrs = [a for a in kw if a.startswith("p_id_")]
+            cut = lambda v: SymArray(v.e[:na], v.dtype) if isinstance(v, SymArray) else v   # noqa: E731
+            kw_alone = {a: cut(v) for a, v in kw.items()}
+            split = []
+            for a in ptrs:     # a pointer of A refers to A, a pointer of B to B
+                split += [z3.Or([kw[a].e[i].t < 0] + [kw[a].e[i].t == labs[j] for j in (range(na) if i < na else range(na, n))]) for i in range(n)]
+            for a in ids:
+                split += [x.t >= 0 for x in kw[a].e] + [kw[a].e[i].t != kw[a].e[j].t for i in range(na) for j in range(na, n)]
+            full, c1 = c11.run_real(f, **kw)
+            alone, c2 = c11.run_real(f, **kw_alone)
+            if full is None or alone is None:
+                ck.add_inconclusive(f"{label}: raises on every path")
+                continue
+            errs = [g for g, k, w in list(c1.errors) + list(c2.errors)]
+            noerr = [z3.Not(z3.Or(errs))] if errs else []
+            ck.functions |= c1.funcs
+            bad = z3.Or([z3.Not(R.values_equal(full.e[i], alone.e[i])) for i in range(na)])
+            r, m = ck.oblige(f"separable {label} A={na} B={nb}", split + noerr + [bad], 60,
+                             sample={"function": label, "claim": "F(A++B)|A == F(A)", "A_rows": na, "B_rows": nb})
+            ck.nontrivial.add(("sep", label, na, nb))
+            if r == "sat" and confirmed(f, kw, kw_alone, m, na, f"separable {label}") is not False:
+                ck.violation(["separable", label], f"{label}: rows of A change when unrelated rows B are appended: {({k: _conc(v, m).tolist() for k, v in kw.items() if isinstance(v, SymArray)})}",
+                             {"kind": "col", "label": label})
+            for a in ids:
+                new = c11.ints(a + "_relabelled", n)
+                iso = [x.t >= 0 for x in kw[a].e] + [x.t >= 0 for x in new.e] + \
+                      [(kw[a].e[i].t == kw[a].e[j].t) == (new.e[i].t == new.e[j].t) for i in range(n) for j in range(i + 1, n)]
+                kw_rel = {**kw, a: new}
+                rel, c3 = c11.run_real(f, **kw_rel)
+                if rel is None:
+                    continue
+                e3 = [g for g, k, w in c3.errors]
+                bad2 = z3.Or([z3.Not(R.values_equal(full.e[i], rel.e[i])) for i in range(n)])
+                r, m = ck.oblige(f"relabel {a} in {label} N={n}", list(pre) + iso + noerr + ([z3.Not(z3.Or(e3))] if e3 else []) + [bad2], 60,
+                                 sample={"function": label, "claim": f"F depends on {a} only through the partition (every injective relabelling)", "rows": n})
+                ck.nontrivial.add(("relabel", label, a, n))
+                if r == "sat" and confirmed(f, kw, kw_rel, m, n, f"relabel {label}") is not False:
+                    ck.violation(["relabel", label], f"{label}: result depends on the labels of {a}, not only on the partition: "
+                                 f"{({k: _conc(v, m).tolist() for k, v in kw.items() if isinstance(v, SymArray)})} vs {a}={_conc(new, m).tolist()}",
+                                 {"kind": "col", "label": label})
+        except R.Unsupported as e:
+            ck.add_inconclusive(f"{label}: {e}")
+
+
 def run(tier):
     ck = common.Check("C02", tier)
     n, na = groupings(ck, tier)
+    for a, b in ([(2, 1)] if tier == "quick" else [(2, 1), (2, 2)]):
+        skipvec_code(ck, a, b)
     for a, b in ([(1, 1), (2, 1)] if tier == "quick" else [(1, 1), (2, 1), (2, 2), (3, 1)]):
         column_code(ck, a, b)
     rnd = random.Random(common.SEED)
